@@ -34,8 +34,10 @@ deriving DecidableEq, Repr
 structure Target where
   label    : Label
   deps     : List Label
-  /-- resolved inputs -/
+  /-- resolved inputs: literal inputs as written, and the files matched by glob patterns -/
   inputs   : List Bytes
+  /-- the input patterns that went through glob resolution (`UnresolvedInputs` containing one of `*?[{`), as written -/
+  globs    : List Bytes
   /-- `AllOutputs()`: declared outputs, then the bin output if set -/
   outs     : List Out
   /-- `HasTag("testonly")` -/
@@ -88,9 +90,13 @@ structure Cfg where
   checkDirs : Bool
   /-- the directory output "." (workspace root) contains every relative path -/
   dotRoot   : Bool
+  /-- input patterns that went through glob resolution are checked in their unresolved form too -/
+  checkGlobs : Bool
+  /-- output overlaps are decided on the path resolved from the workspace root -/
+  resolve   : Bool
 
-def Cfg.current : Cfg := ⟨true, true, true⟩
-def Cfg.old : Cfg := ⟨false, false, false⟩
+def Cfg.current : Cfg := ⟨true, true, true, true, true⟩
+def Cfg.old : Cfg := ⟨false, false, false, false, false⟩
 
 /-! ### BuildNodeMapFromPackages -/
 
@@ -227,10 +233,14 @@ def targetsOf : List Node → List Target
 def recsOf (k : OutKind) (key : Target → Bytes → Bytes) (ts : List Target) : List Rec :=
   ts.flatMap fun t => (t.outs.filter (·.kind = k)).map fun o => ⟨t.label, key t o.ident⟩
 
-def fileRecs (ts : List Target) : List Rec :=
-  recsOf .file (fun t i => cleanOutputPath t.label.pkg i) ts
-def dirRecs (ts : List Target) : List Rec :=
-  recsOf .dir (fun t i => cleanOutputPath t.label.pkg i) ts
+/-- the string on which overlaps are decided: `record.resolved` (before that fix: `record.path`) -/
+def outKey (cfg : Cfg) (ws : Bytes) (t : Target) (i : Bytes) : Bytes :=
+  if cfg.resolve then resolvedOutputPath ws t.label.pkg i else cleanOutputPath t.label.pkg i
+
+def fileRecs (cfg : Cfg) (ws : Bytes) (ts : List Target) : List Rec :=
+  recsOf .file (outKey cfg ws) ts
+def dirRecs (cfg : Cfg) (ws : Bytes) (ts : List Target) : List Rec :=
+  recsOf .dir (outKey cfg ws) ts
 def dockerRecs (ts : List Target) : List Rec :=
   recsOf .docker (fun _ i => i) ts
 
@@ -241,14 +251,14 @@ def pairsAny {α : Type} (p : α → α → Bool) : List α → Bool
 
 /-- `detectOutputConflicts(graph) != nil`. The per-tag and per-path grouping maps of the Go code
     enumerate exactly the pairs `i < j` with equal key. -/
-def hasConflict (cfg : Cfg) (ns : List Node) : Bool :=
+def hasConflict (cfg : Cfg) (ws : Bytes) (ns : List Node) : Bool :=
   let ts := targetsOf ns
   let unord := fun (r s : Rec) => !ordered cfg ns r.owner s.owner
   pairsAny (fun r s => r.path == s.path && unord r s) (dockerRecs ts)
-  || pairsAny (fun r s => r.path == s.path && unord r s) (fileRecs ts)
-  || pairsAny (fun r s => unord r s && pathsOverlap cfg.dotRoot r.path s.path) (dirRecs ts)
-  || (dirRecs ts).any fun d => (fileRecs ts).any fun f =>
-        unord d f && pathWithin cfg.dotRoot f.path d.path
+  || pairsAny (fun r s => r.path == s.path && unord r s) (fileRecs cfg ws ts)
+  || pairsAny (fun r s => unord r s && pathsOverlap cfg.dotRoot cfg.resolve r.path s.path) (dirRecs cfg ws ts)
+  || (dirRecs cfg ws ts).any fun d => (fileRecs cfg ws ts).any fun f =>
+        unord d f && pathWithin cfg.dotRoot cfg.resolve f.path d.path
 
 /-! #### the same with the memo table of `getAncestorSet` (what the code does)
 
@@ -312,29 +322,29 @@ def sameKeyC (cfg : Cfg) (ns : List Node) (c : Cache) (r s : Rec) : Bool × Cach
 
 def dirDirC (cfg : Cfg) (ns : List Node) (c : Cache) (r s : Rec) : Bool × Cache :=
   let o := orderedC cfg ns c r.owner s.owner
-  (!o.1 && pathsOverlap cfg.dotRoot r.path s.path, o.2)
+  (!o.1 && pathsOverlap cfg.dotRoot cfg.resolve r.path s.path, o.2)
 
 def dirFileC (cfg : Cfg) (ns : List Node) (c : Cache) (d f : Rec) : Bool × Cache :=
   let o := orderedC cfg ns c d.owner f.owner
-  (!o.1 && pathWithin cfg.dotRoot f.path d.path, o.2)
+  (!o.1 && pathWithin cfg.dotRoot cfg.resolve f.path d.path, o.2)
 
 /-- `detectOutputConflicts(graph) != nil` -/
-def hasConflictC (cfg : Cfg) (ns : List Node) : Bool :=
+def hasConflictC (cfg : Cfg) (ws : Bytes) (ns : List Node) : Bool :=
   let ts := targetsOf ns
   let st0 : Bool × Cache := (false, [])
   let st1 := pairsC (sameKeyC cfg ns) (dockerRecs ts) st0
-  let st2 := pairsC (sameKeyC cfg ns) (fileRecs ts) st1
-  let st3 := pairsC (dirDirC cfg ns) (dirRecs ts) st2
-  let st4 := (dirRecs ts).foldl (fun st d => rowC (dirFileC cfg ns) d (fileRecs ts) st) st3
+  let st2 := pairsC (sameKeyC cfg ns) (fileRecs cfg ws ts) st1
+  let st3 := pairsC (dirDirC cfg ns) (dirRecs cfg ws ts) st2
+  let st4 := (dirRecs cfg ws ts).foldl (fun st d => rowC (dirFileC cfg ns) d (fileRecs cfg ws ts) st) st3
   st4.1
 
 /-- `BuildGraph(nodes)`: `none` = a graph is returned -/
-def buildGraph (cfg : Cfg) (ns : List Node) : Option Kind :=
+def buildGraph (cfg : Cfg) (ws : Bytes) (ns : List Node) : Option Kind :=
   match edgeErrors ns with
   | some k => some k
   | none =>
     match findCycle ns with
-    | .ok _ => if hasConflictC cfg ns then some Kind.conflict else none
+    | .ok _ => if hasConflictC cfg ws ns then some Kind.conflict else none
     | _ => some Kind.cycle
 
 /-! ### CheckTargetConstraints -/
@@ -346,9 +356,13 @@ def isTestLabel (l : Label) : Bool := testSuffix.reverse.isPrefixOf l.name.rever
 
 def Target.isTest (t : Target) : Bool := isTestLabel t.label
 
+/-- `inputsToCheck`: the resolved inputs, then the glob patterns in their unresolved form (a pattern like `../*.txt`
+    matches nothing inside the package and would otherwise vanish) -/
+def Target.checkedInputs (t : Target) : List Bytes := t.inputs ++ t.globs
+
 /-- `checkInputPathsRelative` -/
-def inputErrors (t : Target) : List Kind :=
-  t.inputs.filterMap fun i =>
+def inputErrors (cfg : Cfg) (t : Target) : List Kind :=
+  (if cfg.checkGlobs then t.checkedInputs else t.inputs).filterMap fun i =>
     if isAbs i then some Kind.inputEscape
     else if triesToEscape i then some Kind.inputEscape
     else none
@@ -385,7 +399,7 @@ def depErrors (ns : List Node) (t : Target) : List Kind :=
     | some u => if badDep t u then some Kind.testDep else none
 
 def targetErrors (cfg : Cfg) (ws : Bytes) (t : Target) : List Kind :=
-  inputErrors t ++ outputErrors cfg ws t ++
+  inputErrors cfg t ++ outputErrors cfg ws t ++
     (if t.isTest && !t.hasCmd then [Kind.testNoCommand] else [])
 
 /-- `CheckTargetConstraints(logger, nodeMap)`: the list of errors (as kinds) -/
@@ -399,7 +413,7 @@ def analyzeWith (cfg : Cfg) (ws : Bytes) (ps : List Pkg) : Verdict :=
   match buildNodeMap ps with
   | none => .reject .duplicate
   | some ns =>
-    match buildGraph cfg ns with
+    match buildGraph cfg ws ns with
     | some k => .reject k
     | none =>
       match constraintErrors cfg ws ns with
@@ -409,10 +423,14 @@ def analyzeWith (cfg : Cfg) (ws : Bytes) (ps : List Pkg) : Verdict :=
 def analyze := analyzeWith Cfg.current
 def analyzeOld := analyzeWith Cfg.old
 
-/-! ### command model: what runs when -/
+/-! ### command model: what runs when
 
-/-- the commands that go through `loading.MustLoadGraphForBuild`; `build`, `test` and `run` then call
-    `cmds.RunBuild` with the user's target patterns -/
+The stages of `grog build|test|run|check` in the order of `cmds/{build,test,run,check}.go`; everything that is not the
+analysis is an *outcome* handed in from outside (`Env`): the model says in which order the stages can stop a command,
+not when selection, the cache backend or the lock fail. Script mode of `grog run <file>` (a node is added to the graph
+after loading) is not modelled. -/
+
+/-- the commands that go through `loading.MustLoadGraphForBuild`; `build`, `test` and `run` then call `cmds.RunBuild` -/
 inductive Cmd | build | test | run | check
 deriving DecidableEq, Repr
 
@@ -424,21 +442,57 @@ structure Request where
   tags     : List Bytes
 deriving Repr
 
+/-- outcomes of the stages the analysis model does not describe -/
+structure Env where
+  /-- `grog run`: every requested label names a target with a binary output (`runTargetsByLabels`, between loading and `RunBuild`) -/
+  labelsOk  : Bool
+  /-- `SelectTargetsForBuild` returned no error -/
+  selectOk  : Bool
+  /-- number of selected targets -/
+  selected  : Nat
+  /-- `backends.GetCacheBackend` succeeded -/
+  cacheOk   : Bool
+  /-- the workspace lock was acquired (or skipped) -/
+  lockOk    : Bool
+  /-- `executor.Execute` and the result reporting found no failure -/
+  execOk    : Bool
+deriving Repr
+
 inductive Ev
-  | diagnostic (k : Kind)
+  | diagnostic (k : Kind)   -- an error line naming a graph defect
+  | fatal                   -- any other fatal message (label lookup, selection, nothing selected, cache, lock)
+  | execute                 -- `executor.Execute` is entered: commands may run
+  | runBinaries             -- `grog run`: the built binaries are started
   | exitFail
-  | execute      -- selection, then the executor is started (`build`, `test`, `run`)
   | exitOk
 deriving DecidableEq, Repr
 
-/-- `grog build|test|run|check`: analysis of the whole loaded graph first; on reject print and exit 1; on accept
-    `check` reports success, the others go on to selection and the executor. -/
-def runCmd (cfg : Cfg) (r : Request) (ws : Bytes) (ps : List Pkg) : List Ev :=
-  match analyzeWith cfg ws ps with
-  | .reject k => [.diagnostic k, .exitFail]
-  | .accept =>
-    match r.cmd with
-    | .check => [.exitOk]
-    | _ => [.execute, .exitOk]
+/-- what happens after the whole graph was accepted -/
+def afterAccept (r : Request) (env : Env) : List Ev :=
+  match r.cmd with
+  | .check => [.exitOk]
+  | c =>
+    if !env.selectOk then [.fatal, .exitFail]
+    else if env.selected = 0 then [.fatal, .exitFail]
+    else if !env.cacheOk then [.fatal, .exitFail]
+    else if !env.lockOk then [.fatal, .exitFail]
+    else if !env.execOk then [.execute, .exitFail]
+    else if c = .run then [.execute, .runBinaries, .exitOk]
+    else [.execute, .exitOk]
+
+/-- `grog build|test|run|check`: node map and `BuildGraph` while loading (first error is fatal); for `run` the label
+    lookup; `CheckTargetConstraints` on all nodes (every error is printed, then exit 1); then `afterAccept`. -/
+def runCmd (cfg : Cfg) (r : Request) (env : Env) (ws : Bytes) (ps : List Pkg) : List Ev :=
+  match buildNodeMap ps with
+  | none => [.diagnostic .duplicate, .exitFail]
+  | some ns =>
+    match buildGraph cfg ws ns with
+    | some k => [.diagnostic k, .exitFail]
+    | none =>
+      if r.cmd = .run && !env.labelsOk then [.fatal, .exitFail]
+      else
+        match constraintErrors cfg ws ns with
+        | [] => afterAccept r env
+        | ks => ks.map Ev.diagnostic ++ [.exitFail]
 
 end Grog.Analysis
